@@ -342,10 +342,7 @@ def p_polygon_area(e, n):
 
 
 def _valid(e, cond, timeout=20000):
-    if isinstance(cond, bool):
-        return cond
-    s = z3.Solver(); s.set('timeout', timeout); s.add(*e.pc); s.add(z3.Not(cond))
-    return s.check() == z3.unsat
+    return e.valid(cond, timeout)
 
 
 def build_rect(e, nx, ny, nz, atm, convention, nsurf, block_order=None, origin=None):
